@@ -29,7 +29,7 @@ func (m Map) ReferenceOrigins(ctx context.Context) reference.Origins {
 		keyExpr, ok := item.Key.(*hclsyntax.ObjectConsKeyExpr)
 		if ok {
 			parensExpr, ok := keyExpr.Wrapped.(*hclsyntax.ParenthesesExpr)
-			if ok {
+			if ok && m.cons.AllowInterpolatedKeys {
 				keyCons := schema.AnyExpression{
 					OfType: cty.String,
 				}
